@@ -105,7 +105,7 @@ def contraction_cases(tier, seed):
     for dims in dims_alphabet(tier):
         n = len(dims)
         N = ti.prod(dims)
-        ents = ("sym", "pow", "int", "intB", "float", "complex")
+        ents = ("sym", "pow", "int", "intB", "float", "complex", "u8", "i8", "bool")
         if n >= 5:
             ents = ("pow", "complex")
         elif N > 27:
@@ -121,7 +121,11 @@ def contraction_check(case):
     traced = [1] if sys_ is None else ([sys_] if isinstance(sys_, int) else list(sys_))
     N = ti.prod(dims)
     X = lb.labelled(N, N, ent, additive=True)
-    exp = lb.ptrace_expected(X, dims, traced)
+    narrow = ent in ("u8", "i8", "bool")
+    # narrow integer / boolean inputs: the entries of the result are the SUMS of the entries (exact Python integers), which leave
+    # the input dtype's range - the oracle works on Python ints
+    Xo = np.vectorize(int, otypes=[object])(X) if narrow else X
+    exp = lb.ptrace_expected(Xo, dims, traced)
     got, exc = run_pt(X.copy(), sys_, dim_arg(dims, form))
     if exc is not None:
         return viol("partial_trace raised on an in-domain configuration: " + exc_text(exc), site=SITE + ":exception",
@@ -132,6 +136,8 @@ def contraction_check(case):
     # trace preservation (a direct consequence, checked on the exact labels)
     g = np.asarray(got)
     g = g.reshape(len(exp), len(exp))
+    if narrow:
+        g, X = np.vectorize(int, otypes=[object])(g), Xo
     tr_out = g[0, 0]
     for k in range(1, g.shape[0]):
         tr_out = tr_out + g[k, k]
@@ -438,3 +444,7 @@ CLAUSES = [
     Clause("C02.composition", composition_cases, composition_check,
            doc="tracing S then T (re-indexed, every listing order) = tracing S u T, for all ordered disjoint splits"),
 ]
+
+# every toqito call of this property is repeated with column-major copies of its array arguments (engine.call, layout twin)
+for _c in CLAUSES:
+    _c.layout_twin = True
